@@ -482,6 +482,24 @@ func init() {
 				})
 			},
 			diag: regexp.MustCompile(`_\d+\.Unmarshal(JSON|YAML) undefined`)},
+		genFinding{sig: "anyof-primitive-member-undeclared",
+			trigger: func(root *sg.Schema, _ []string) bool {
+				return anyNode(root, anyOfMixesStructAndPrimitive)
+			},
+			neutralise: func(root *sg.Schema) {
+				root.Walk(func(x *sg.Schema) {
+					if anyOfMixesStructAndPrimitive(x) {
+						var keep []*sg.Schema
+						for _, m := range x.AnyOf {
+							if !isPrimitiveMember(m) {
+								keep = append(keep, m)
+							}
+						}
+						x.AnyOf = keep
+					}
+				})
+			},
+			diag: regexp.MustCompile(`undefined: \w+_\d+\b`)},
 		genFinding{sig: "int64-bound-overflow",
 			trigger: func(root *sg.Schema, _ []string) bool { return anyNode(root, hasHugeIntBound) },
 			neutralise: func(root *sg.Schema) {
@@ -665,6 +683,37 @@ func genFindingFor(ctx *Ctx, root *sg.Schema, args []string, diag string) string
 		}
 	}
 	return ""
+}
+
+// isPrimitiveMember: a composition member that is a string / integer / number / boolean schema (after references).
+func isPrimitiveMember(m *sg.Schema) bool {
+	r := m.Resolve()
+	if r == nil || r.HasEnum {
+		return false
+	}
+	t, _, ok := r.NonNullType()
+	return ok && (t == "string" || t == "integer" || t == "number" || t == "boolean")
+}
+
+// anyOfMixesStructAndPrimitive: an anyOf that has a member which becomes a struct next to a primitive member - the
+// generated unmarshaler names a type <Name>_<i> for EVERY member, primitive members get none (recorded finding
+// anyof-primitive-member-undeclared; a TODO in the generator says as much).
+func anyOfMixesStructAndPrimitive(x *sg.Schema) bool {
+	if len(x.AnyOf) < 2 {
+		return false
+	}
+	obj, prim := false, false
+	for _, m := range x.AnyOf {
+		r := m.Resolve()
+		if r == nil {
+			continue
+		}
+		if t, _, ok := r.NonNullType(); ok && t == "object" && (len(r.Props) > 0 || r.AddProps != nil) {
+			obj = true
+		}
+		prim = prim || isPrimitiveMember(m)
+	}
+	return obj && prim
 }
 
 // addPropsAnything: additionalProperties whose values are interface{} - true, an untyped inline schema, or a
